@@ -832,7 +832,11 @@ class Lib:
         from .loops import minmax_iter
 
         if kw:
-            raise EngineLimit("min/max with key")
+            if set(kw) == {"key"} and len(args) == 1:
+                from .loops import argminmax_iter
+
+                return argminmax_iter(self.e, ctx, args[0], kw["key"], is_min)
+            raise EngineLimit("min/max with key/default")
         if len(args) == 1:
             return minmax_iter(self.e, ctx, args[0], is_min)
         items = list(args)
@@ -965,6 +969,22 @@ class Lib:
             return V.FractionV(z3.ToReal(num))
         if isinstance(num, z3.ExprRef) and z3.is_real(num):
             return V.FractionV(num)
+        if isinstance(num, str):
+            import fractions
+
+            try:
+                fr = fractions.Fraction(num)
+            except (ValueError, ZeroDivisionError):
+                raise self.raise_ext("ValueError", "Fraction(%r)" % num)
+            return V.FractionV(z3.RealVal(str(fr.numerator)) / z3.RealVal(str(fr.denominator)))
+        if isinstance(num, V.FloatV):
+            import fractions
+
+            try:
+                fr = fractions.Fraction(num.value)
+            except (ValueError, OverflowError) as ex:
+                raise self.raise_ext(type(ex).__name__, "Fraction(float)")
+            return V.FractionV(z3.RealVal(str(fr.numerator)) / z3.RealVal(str(fr.denominator)))
         raise EngineLimit("Fraction(%r)" % (num,))
 
     bi_Fraction = bi_fractions_Fraction
